@@ -72,8 +72,8 @@ CONSTANTS
     MaxWire     \* frames in flight towards the client (back pressure of the connection)
 
 AllDev == {"spin_on_closed", "err_frame", "row_err_unnoticed", "cursor_stuck", "silent_refusal"}
-Cod(d) == d \in Dev                  \* the as-coded branch of switch d may be taken
-Int(d) == Mixed \/ d \notin Dev      \* the intended branch of switch d may be taken
+AsCoded(d) == d \in Dev                  \* the as-coded branch of switch d may be taken
+AsIntended(d) == Mixed \/ d \notin Dev      \* the intended branch of switch d may be taken
 
 VARIABLES
     now,        \* wall clock
@@ -184,8 +184,8 @@ Request(k, f0) ==
     /\ hpc = "idle" /\ req = "none" /\ req' = k
     /\ CASE k \in {"empty", "noparse"} ->             \* `query == ""` / Transpile fails: return before anything is started
                /\ hpc' = "term" /\ client' = "refused"
-               /\ (\/ Int("silent_refusal") /\ status' = 400 /\ used' = used                        \* an error status
-                   \/ Cod("silent_refusal") /\ status' = 200 /\ used' = used \cup {"silent_refusal"}) \* as coded: log, return
+               /\ (\/ AsIntended("silent_refusal") /\ status' = 400 /\ used' = used                        \* an error status
+                   \/ AsCoded("silent_refusal") /\ status' = 200 /\ used' = used \cup {"silent_refusal"}) \* as coded: log, return
                /\ UNCHANGED <<rpc, dpc, spc, from, wdone, cancelled>>
          [] k = "noupgrade" ->                         \* service.Tail started its goroutine, Upgrade fails (400): deferred chain
                /\ hpc' = "term" /\ client' = "refused" /\ status' = 400
@@ -242,8 +242,8 @@ HRecv ==                                              \* case str := <-watcher.G
 
 HRecvClosed ==                                        \* the same case on the CLOSED channel
     /\ hpc = "select" /\ chClosed
-    /\ \/ Int("spin_on_closed") /\ ExitEffects /\ UNCHANGED <<wire, stale, flags, used>>   \* `str, ok := <-ch; if !ok { return }`
-       \/ Cod("spin_on_closed") /\ Write(EmptyMsg)    \* as coded: zero value, written as a message, again and again
+    /\ \/ AsIntended("spin_on_closed") /\ ExitEffects /\ UNCHANGED <<wire, stale, flags, used>>   \* `str, ok := <-ch; if !ok { return }`
+       \/ AsCoded("spin_on_closed") /\ Write(EmptyMsg)    \* as coded: zero value, written as a message, again and again
           /\ used' = used \cup {"spin_on_closed"}
     /\ UNCHANGED <<now, store, req, status, client, rpc, spc, from, buf, chClosed, svcTick, pingTick,
                    vcached, fault, sent, cls, delivered, late>>
@@ -317,8 +317,8 @@ Deliver(to, P, tags) ==
                 intended == Max(from, m + 1)                        \* from := newest timestamp in the frame + 1
                 coded    == IF from < m THEN m + 1 ELSE from        \* as coded: `if from < ts { from = ts + 1 }`
             IN  IF intended = coded THEN from' = intended /\ used' = used \cup tags
-                ELSE \/ Int("cursor_stuck") /\ from' = intended /\ used' = used \cup tags
-                     \/ Cod("cursor_stuck") /\ from' = coded /\ used' = used \cup tags \cup {"cursor_stuck"}
+                ELSE \/ AsIntended("cursor_stuck") /\ from' = intended /\ used' = used \cup tags
+                     \/ AsCoded("cursor_stuck") /\ from' = coded /\ used' = used \cup tags \cup {"cursor_stuck"}
     /\ cls' = [l \in Lines |->
                  IF cls[l] # "none" \/ l \notin Ids(store) THEN cls[l]
                  ELSE IF TsOf(l) < from THEN "old" ELSE IF TsOf(l) < to THEN "due" ELSE "future"]
@@ -336,12 +336,12 @@ SQuery(to, o, P) ==
                            /\ fault' = "query" /\ spc' = "exit" /\ UNCHANGED <<buf, sent, flags, from, cls, used>>
          [] o = "row"   -> "row" \in Faults /\ fault = "none" /\ P \subseteq Rows(to)
                            /\ fault' = "row"
-                           /\ (\/ Int("row_err_unnoticed") /\ spc' = "exit" /\ UNCHANGED <<buf, sent, flags, from, cls, used>>
-                               \/ Cod("row_err_unnoticed") /\ Deliver(to, P, {"row_err_unnoticed"}))  \* as coded: looks complete
+                           /\ (\/ AsIntended("row_err_unnoticed") /\ spc' = "exit" /\ UNCHANGED <<buf, sent, flags, from, cls, used>>
+                               \/ AsCoded("row_err_unnoticed") /\ Deliver(to, P, {"row_err_unnoticed"}))  \* as coded: looks complete
          [] o = "scan"  -> "scan" \in Faults /\ fault = "none" /\ P \subseteq Rows(to) /\ P # Rows(to)
                            /\ fault' = "scan"
-                           /\ (\/ Int("err_frame") /\ spc' = "exit" /\ UNCHANGED <<buf, used>>
-                               \/ Cod("err_frame") /\ spc' = "errsend" /\ buf' = ErrTail       \* onErr(e.Err, res): res <- "]}}"
+                           /\ (\/ AsIntended("err_frame") /\ spc' = "exit" /\ UNCHANGED <<buf, used>>
+                               \/ AsCoded("err_frame") /\ spc' = "errsend" /\ buf' = ErrTail       \* onErr(e.Err, res): res <- "]}}"
                                   /\ used' = used \cup {"err_frame"})
                            /\ UNCHANGED <<sent, flags, from, cls>>
     /\ UNCHANGED <<now, store, req, status, client, hpc, rpc, dpc, chClosed, wdone, cancelled, svcTick, pingTick,
